@@ -89,6 +89,7 @@ func runC20(c *Ctx) {
 	// makes up no error of its own: an empty read (0, nil) taken for the end of the data yields the digest of a prefix
 	// (the obligation C09/A24).
 	c.contextualAdaptersConvert("H10")
+	c.c20OneCalculationPerHandle()
 	// --- H9 -------------------------------------------------------------------
 	// "the digest returned for a content equals the reference digest": what the file hasher answers is the pair the hasher
 	// answered for the handle. A deferred release of the handle that writes its own outcome over the error (`err =
@@ -797,4 +798,66 @@ func (c *Ctx) c20DigestsComeFromTheHasher() {
 		c.check(bad == "", "H8", fname(f)+"/computed", c.pos(f.Pos()), "every value returned is computed by a call, or is the empty string",
 			fname(f)+" can return "+bad+" instead of what the hasher computes: a digest taken from a table is right only as long as every entry of the table is — a shortcut for the empty text with one wrong entry gives, for that algorithm and that content, a digest that is not the reference digest, while the same bytes through the reader or the file path hash correctly")
 	}
+}
+
+// c20OneCalculationPerHandle (H11): "hashing a file returns the value of hashing its bytes … independently of any earlier
+// calculation — including one that failed midway". The file hasher opens the path and hands the handle to the hasher
+// once. A second calculation on the same handle (a retry after a failed read) starts where the first one stopped unless
+// the handle can be rewound — and on the backends whose handles cannot seek the rewind silently does nothing: the digest
+// of the rest of the file is returned as the digest of the file. A retry opens the file again.
+func (c *Ctx) c20OneCalculationPerHandle() {
+	c.rule("H11", "in the file hasher the calculation is run at most once per handle it opened: the call of the hashing callback is not in a loop that does not also open the file", 1)
+	f := c.fnOpt(fsPkgRel, "(*fileHashing).calculateFile")
+	if f == nil {
+		return
+	}
+	c.FuncsSeen[fname(f)] = true
+	var calc []*ssa.Call
+	var opens []*ssa.Call
+	allInstrs(f, func(in ssa.Instruction) {
+		cl, ok := in.(*ssa.Call)
+		if !ok {
+			return
+		}
+		if !cl.Call.IsInvoke() {
+			if _, isSig := cl.Call.Value.Type().Underlying().(*types.Signature); isSig && paramIndex(f, resolveValue(cl.Call.Value)) >= 0 {
+				calc = append(calc, cl)
+			}
+		}
+		if nm, _, isFs := fsMethodCall(cl); isFs && (nm == "GenericOpen" || nm == "Open" || nm == "OpenFile") {
+			opens = append(opens, cl)
+		}
+	})
+	key := fname(f) + "/one-calculation-per-handle"
+	if len(calc) == 0 {
+		c.info("H11", key, "-", "calculateFile does not run a callback on the handle it opens")
+		return
+	}
+	bad := ""
+	for _, k := range calc {
+		if !inLoop(k) {
+			continue
+		}
+		sameLoop := false
+		for _, o := range opens {
+			if inLoop(o) && loopHeaderOf(o) == loopHeaderOf(k) {
+				sameLoop = true
+			}
+		}
+		if !sameLoop {
+			bad = c.ipos(k)
+		}
+	}
+	if len(calc) > 1 {
+		// two calls on one straight line: the second one is a second calculation on the same handle
+		for i := range calc {
+			for j := range calc {
+				if i != j && dominates(calc[i], calc[j]) {
+					bad = c.ipos(calc[j])
+				}
+			}
+		}
+	}
+	c.check(bad == "", "H11", key, c.ipos(calc[0]), "one calculation per opened handle",
+		"the calculation is run again at "+bad+" on the handle of a calculation that failed: it starts where the failed one stopped unless the handle was rewound, and a rewind that is 'best effort' does nothing on a backend whose handles cannot seek (an io/fs filesystem served as a stream) — after a read that failed once at byte k the digest of the remaining bytes is returned, with no error, as the digest of the file")
 }
